@@ -977,6 +977,9 @@ class Manager:
             # Fading out, handle remaining work from stop event
             for _ in range(3):
                 self.tick()
+            # tasks stepped while fading out may have fired further events
+            while len(self._queue):
+                self.tick()
         except Exception as exc:
             stderr.write(f'Unhandled ERROR: {exc}\n')
             stderr.write(format_exc())
